@@ -486,8 +486,8 @@ impl Display for TestCaseConfig {
 }
 
 /// Renders a string so that it can be embedded in a YAML flow mapping: either as a
-/// plain scalar, where that is unambiguous, or as a double quoted scalar (every JSON
-/// string is a valid, properly escaped, double quoted YAML scalar).
+/// plain scalar, where that is unambiguous, or as a double quoted scalar (a JSON string,
+/// with the few characters escaped that JSON allows verbatim and YAML does not).
 fn yaml_flow_scalar(value: &str, always_quote: bool) -> String {
     let is_plain = !value.is_empty()
         && value
@@ -498,7 +498,16 @@ fn yaml_flow_scalar(value: &str, always_quote: bool) -> String {
     if is_plain && !always_quote {
         value.to_string()
     } else {
-        serde_json::to_string(value).unwrap_or_else(|_| format!("{:?}", value))
+        // JSON leaves DEL and the C1 control characters as they are: YAML rejects them in
+        // a double quoted scalar - or, for NEL, folds them like a line break into a blank
+        serde_json::to_string(value)
+            .unwrap_or_else(|_| format!("{:?}", value))
+            .chars()
+            .map(|c| match c {
+                '\u{7f}'..='\u{9f}' => format!("\\u{:04x}", c as u32),
+                c => c.to_string(),
+            })
+            .collect()
     }
 }
 
